@@ -175,6 +175,21 @@ def run_wire(case: dict):
                 await client.get("gemini://prime.example/start", follow_redirects=True)
             except Exception:
                 pass
+            # ... and the reverse proxy has relayed redirects (a relative and an absolute one) from an upstream
+            try:
+                import asyncio as _aio
+
+                from nauyaca.server.proxy import ProxyHandler
+
+                for k_, meta_ in enumerate((b"30 ../moved;v=2?x=1", b"31 gemini://other.example/abs;p=1")):
+                    net.add(f"up{k_}.prime", 1965, memnet.ScriptedPeer(certs.get("ec-a"), [("wait_request", 1.0), ("send", meta_ + b"\r\n"), ("close",)]))
+                    ph = ProxyHandler(upstream=f"gemini://up{k_}.prime", prefix="/", strip_prefix=False, timeout=5.0)
+                    trp = FakeTransport(loop)
+                    trp.attach(GeminiServerProtocol(ph.handle, None))
+                    trp.feed(b"gemini://front.example/a/b;c=1\r\n")
+                    await _aio.sleep(2.0)
+            except Exception:
+                pass
             seen.clear()
             sim.log.clear()
         n0 = len(loop.connection_log)
